@@ -92,7 +92,21 @@ def flagsJ (d : ArgDecl.Decl) : Json :=
 
 /-- an argument of a node: derived from its declaration when the harness sends one (flags by `mkArg`), else the
     flags read from the real object (declaration forms outside the model). -/
-def argOf (j : Json) : Arg :=
+def withDefaultVal (d : ArgDecl.Decl) (dv : Val) : ArgDecl.Decl :=
+  { d with attr := match d.attr with | .value _ => .value dv | .fieldValue _ => .fieldValue dv | a => a }
+
+/-- an argument sent as (class, parameter name): the declaration in force is resolved by the model through the class table
+    of the library (`ArgDecl.effDecl`, rule from the source), the flags derived by `mkArg`; `dv` = the declared default as a
+    model value (it may refer to nodes of the graph). -/
+def argOfTable (t : ArgDecl.ClassTable) (j : Json) : Arg :=
+  let nm := unhex (strF j "name")
+  match (ArgDecl.effDecl t Gen.ArgFlags.inheritRule (natF j "cls") nm).bind
+      (fun d => (withDefaultVal d (valOf (fld j "dv"))).toArg (valOf (fld j "value"))) with
+  | some a => a
+  | none => { name := nm, value := valOf (fld j "value") }
+
+def argOf (t : ArgDecl.ClassTable) (j : Json) : Arg :=
+  if !isNull (fld j "cls") then argOfTable t j else
   if !isNull (fld j "decl") then
     match (declOf (fld j "decl")).toArg (valOf (fld j "value")) with
     | some a => a
@@ -105,8 +119,8 @@ def argOf (j : Json) : Arg :=
 
 def optBool (j : Json) : Option Bool := if isNull j then none else some (J.bool j)
 
-def nodeOf (j : Json) : Node :=
-  { typeId := unhex (strF j "typeId"), args := (arrF j "args").map argOf, task := optNat (fld j "task"),
+def nodeOf (t : ArgDecl.ClassTable) (j : Json) : Node :=
+  { typeId := unhex (strF j "typeId"), args := (arrF j "args").map (argOf t), task := optNat (fld j "task"),
     mflag := optBool (fld j "meta"), sealed := boolF j "sealed",
     preTasks := (arrF j "pre").map nat, initTasks := (arrF j "init").map nat }
 
@@ -115,8 +129,8 @@ def depOf (j : Json) : ExtraDep :=
   match j.getObjVal? "job" with
   | .ok n => .job (nat n)
   | _ => .token (natF j "token") (natF j "count")
-def xnodeOf (j : Json) : XNode :=
-  { toNode := nodeOf j,
+def xnodeOf (t : ArgDecl.ClassTable) (j : Json) : XNode :=
+  { toNode := nodeOf t j,
     tags := (arrF j "tags").map (fun kv => (unhex (J.str ((arr kv).getD 0 Json.null)), valOf ((arr kv).getD 1 Json.null))),
     extraDeps := (arrF j "deps").map depOf }
 def envOf (j : Json) : SubmitEnv :=
@@ -128,7 +142,10 @@ def hc : HC D := { H := Sha256.hashBytes, emb := id, le := bytesLe }
 
 def okJ : Json := Json.mkObj [("ok", true)]
 
-def stepJ (xs : XSt D) (j : Json) : XSt D × Json :=
+/-- driver state: the machine and the class tables of the libraries registered by `lib` lines. -/
+abbrev DSt := XSt D × List (String × ArgDecl.ClassTable)
+
+def stepX (tables : List (String × ArgDecl.ClassTable)) (xs : XSt D) (j : Json) : XSt D × Json :=
   let outJ (out : Out D) : Json := match out with
       | .ok => okJ
       | .id d => Json.mkObj [("id", hexOf d)]
@@ -143,7 +160,8 @@ def stepJ (xs : XSt D) (j : Json) : XSt D × Json :=
   | "graph" =>
     -- the extended graph (tags, added dependencies, submission environment) is built from the line; the identifier machine
     -- starts from its erasure
-    let x : XGraph := { nodes := (arrF j "nodes").map xnodeOf, env := envOf (fld j "env") }
+    let t := ((tables.find? (fun kt => kt.1 == strF j "lib")).map (·.2)).getD []
+    let x : XGraph := { nodes := (arrF j "nodes").map (xnodeOf t), env := envOf (fld j "env") }
     ({ st := { g := x.core, c := Caches.empty },
        tags := (x.nodes.zipIdx.map (fun (nd, i) => nd.tags.map (fun kv => (i, kv.1, kv.2)))).flatten,
        deps := (x.nodes.zipIdx.map (fun (nd, i) => nd.extraDeps.map (fun d => (i, d)))).flatten,
@@ -187,4 +205,9 @@ def stepJ (xs : XSt D) (j : Json) : XSt D × Json :=
   | "sealed" => keep (s, Json.mkObj [("sealed", Json.arr ((s.g.nodes.map (fun nd => (nd.sealed : Json))).toArray))])
   | op => (xs, Json.mkObj [("error", Json.str s!"bad-op {op}")])
 
-def main : IO Unit := J.loop stepJ { st := { g := { nodes := [] }, c := Caches.empty } }
+def stepJ (s : DSt) (j : Json) : DSt × Json :=
+  match strF j "op" with
+  | "lib" => ((s.1, (strF j "key", tableOf (fld j "table")) :: s.2), okJ)
+  | _ => let (xs, out) := stepX s.2 s.1 j; ((xs, s.2), out)
+
+def main : IO Unit := J.loop stepJ ({ st := { g := { nodes := [] }, c := Caches.empty } }, [])
